@@ -11,10 +11,12 @@ from .model import HistoryModel, ModelError, TreeModel, flat_ops, is_ignored_pat
 
 
 class World:
-    def __init__(self, init, limit=100, ropefolder=None, prefs=None, tag="w", clock=None, root=None, stamp=False, lib=None):
+    def __init__(self, init, limit=100, ropefolder=None, prefs=None, tag="w", clock=None, root=None, stamp=False, lib=None, fixed_key=None):
         import rope.base.change as rc
 
-        self.dir = kernel.new_scratch(tag)
+        # (where absolute paths end up in saved data the path must be a function of the run)
+        self.fixed = bool(fixed_key)
+        self.dir = kernel.fixed_scratch(fixed_key) if fixed_key else kernel.new_scratch(tag)
         self.root = root or os.path.join(self.dir, "proj")
         kernel.write_tree(self.root, init)
         self.clock = clock or kernel.SimClock()
@@ -56,7 +58,10 @@ class World:
         return snap
 
     def destroy(self):
-        kernel.drop_scratch(self.dir)
+        if self.fixed and "ropesim-fixed" in self.dir:
+            kernel.drop_fixed(self.dir)
+        else:
+            kernel.drop_scratch(self.dir)
 
 
 def abstract_of(change):
@@ -119,6 +124,17 @@ def compute_refactoring(project, st):
             if not dest.is_folder() or not dest.has_child("__init__.py") or dest.has_child(res.name):
                 return None
             return move.create_move(project, res).get_changes(dest)
+        if st["kind"] == "move_global":
+            from rope.refactor import move
+
+            m = re.search(r"^(?:def|class)\s+(%s)\b" % re.escape(st["ident"]), res.read(), re.M)
+            dest = project.get_resource(st["dest"])
+            if m is None or dest.is_folder() or dest == res:
+                return None
+            mover = move.create_move(project, res, m.start(1))
+            if not isinstance(mover, move.MoveGlobal):
+                return None
+            return mover.get_changes(dest)
         if st["kind"] == "to_package":
             from rope.refactor import topackage
 
